@@ -398,6 +398,19 @@ func c06History(r *rand.Rand, n int, script []func(ov dom.OverlayDocument, ref *
 					if e1 != nil || e2 != nil || !bytes.Equal(b1.Bytes(), b2.Bytes()) {
 						fail = append(fail, "Serialize(overlay) is not the serialisation of Merged()")
 					}
+					// ... also when the writer gives up (at the first byte, in the middle, at the last byte): the error surfaces
+					if b1.Len() > 0 {
+						for _, n := range []int{0, b1.Len() / 2, b1.Len() - 1} {
+							for ei, enc := range []dom.EncoderFunc{dom.DefaultYamlEncoder, dom.DefaultJsonEncoder} {
+								var werr error
+								if pn := guard(func() { werr = ov.Serialize(&failAfterW{n: n}, dom.DefaultNodeEncoderFn, enc) }); pn != "" {
+									fail = append(fail, "panic in Serialize(overlay) into a failing writer: "+pn)
+								} else if werr == nil && !(ei == 1 && n >= b1.Len()/2) {
+									fail = append(fail, fmt.Sprintf("Serialize(overlay) into a writer failing after %d bytes (encoder %d) reported success", n, ei))
+								}
+							}
+						}
+					}
 				}
 				st = c06Step{desc: fmt.Sprintf("Merged(append=%v)", app), coq: "OMerged " + gBool(app), obs: "ObsDoc " + gNode(got)}
 				ok = true
